@@ -269,6 +269,51 @@ def r19_1(ctx, fx, seen):
     return inventory
 
 
+_SMALL_INT = re.compile(r"^(u8|u16|i8|i16)$")
+_ALLOC_RX = r"BytesMut::(zeroed|with_capacity)$|vec::from_elem$|Vec(<.*>)?::with_capacity$"
+
+
+def auto_bounded(fn, o, depth=0):
+    """is the usize operand `o` bounded by construction: a constant, a value of a <=16-bit integer type (a u16 length prefix), sums /
+    products of such, or the `len()` of a buffer that this function allocated with such a size"""
+    if depth > 12:
+        return False
+    if "k" in o:
+        return isinstance((o["k"] or {}).get("v"), int) or "cdef" in (o["k"] or {})
+    p = o.get("m") or o.get("c")
+    if p is None:
+        return False
+    if len(p) == 2 and p[1] == ".0":
+        p = [p[0]]
+    if len(p) != 1:
+        return False
+    if _SMALL_INT.match(fn.locals[p[0]]):
+        return True
+    d = fn.single_def(p[0])
+    if d is None:
+        return False
+    if d[1] == "assign":
+        rv = d[2]["rv"]
+        if rv["r"] in ("use", "cast"):
+            return auto_bounded(fn, rv["o"], depth + 1)
+        if rv["r"] == "bin" and re.match(r"^(Add|Mul|Sub)", rv["op"]):
+            return auto_bounded(fn, rv["a"], depth + 1) and auto_bounded(fn, rv["b"], depth + 1)
+        return False
+    if d[1] == "call":
+        c = fn.call_at(d[0])
+        if re.search(r"(BytesMut|Bytes|Vec(<.*>)?)::len$", c.name) and c.args:
+            from common import ref_local
+            b = ref_local(fn, c.args[0])
+            if b is not None:
+                pr = fn.single_def(b)
+                if pr is not None and pr[1] == "call":
+                    a = fn.call_at(pr[0])
+                    if re.search(_ALLOC_RX, a.name) and a.args:
+                        szi = 1 if re.search(r"from_elem$", a.name) else 0
+                        return auto_bounded(fn, a.args[szi] if len(a.args) > szi else a.args[-1], depth + 1)
+    return False
+
+
 def r19_2(ctx, fx, seen):
     n = 0
     for k, fn in sorted(seen.items()):
@@ -286,6 +331,10 @@ def r19_2(ctx, fx, seen):
             ords[nm] += 1
             key = "%s|alloc:%s#%d" % (fn_short(k), nm, ords[nm])
             if size is not None and (fn.const_value(size) is not None or (fn.roots(size) and all(r[0] == "const" for r in fn.roots(size)))):
+                continue
+            if size is not None and auto_bounded(fn, size):
+                ctx.ob("R19.2", "%s|alloc-bounded-by-construction#%d" % (fn_short(k), sum(ords.values())), True, site=fn.site(c.node), cfg=fx.cfg,
+                       detail="size `%s`: constants, <=16-bit integers and lengths of buffers so allocated" % sdesc[:60])
                 continue
             ent = ALLOC_TABLE.get(key)
             if ent is None:
